@@ -67,12 +67,13 @@ Record mon := mkMon {
   mn_spent : bool;                         (* a transaction spending the output was broadcast *)
   mn_watch : bool;                         (* this process registered the CSV watch on the announced outpoint *)
   mn_scriptfail : bool;                    (* this process saw GetOutputScript fail (environment failure) *)
+  mn_storefail : bool;                     (* this process saw a store write fail (environment failure) *)
   mn_diag : list string }.
 
 #[export] Instance eta_mon : Settable _ := settable! mkMon
-  <mn_bcs; mn_dur; mn_paid; mn_spent; mn_watch; mn_scriptfail; mn_diag>.
+  <mn_bcs; mn_dur; mn_paid; mn_spent; mn_watch; mn_scriptfail; mn_storefail; mn_diag>.
 
-Definition mon0 : mon := mkMon [] None false false false false [].
+Definition mon0 : mon := mkMon [] None false false false false false [].
 
 Definition flag (b : bool) (msg : string) (m : mon) : mon :=
   if b then m else m <| mn_diag := (mn_diag m ++ [msg])%list |>.
@@ -83,6 +84,7 @@ Definition mon_effect (m : mon) (e : effect) : mon :=
       flag (match mn_bcs m with [] => true | _ => false end) "second-opening-transaction"
            (m <| mn_bcs := o :: mn_bcs m |>)
   | EPersist s d true => m <| mn_dur := Some (s, d) |>
+  | EPersist _ _ false => m <| mn_storefail := true |>
   | EBroadcastSpend _ (Some _) => m <| mn_spent := true |>
   | EWatchCsv txid vout _ _ =>
       match mn_bcs m with
@@ -120,23 +122,24 @@ Definition world_script_ok (w : world) : bool := forallb (fun b => b) (q_script 
 
 (* a step during which the process died *)
 Definition mon_crash (m : mon) (cr : crash_obs) : mon :=
-  let m1 := if is_recover (cr_input cr) then m <| mn_watch := false |> <| mn_scriptfail := false |> else m in
+  let m1 := if is_recover (cr_input cr) then m <| mn_watch := false |> <| mn_scriptfail := false |> <| mn_storefail := false |> else m in
   let m2 := m1 <| mn_paid := mn_paid m1 || is_paid_input (cr_input cr) |> in
   let m3 := mon_rest (fold_left mon_effect (cr_effects cr) m2) in
-  m3 <| mn_watch := false |> <| mn_scriptfail := false |>.
+  m3 <| mn_watch := false |> <| mn_scriptfail := false |> <| mn_storefail := false |>.
 
 (* a step that ran to completion *)
 Definition mon_step (t : table) (m : mon) (s : obs_step) : mon :=
-  let m1 := if is_recover (os_input s) then m <| mn_watch := false |> <| mn_scriptfail := false |> else m in
+  let m1 := if is_recover (os_input s) then m <| mn_watch := false |> <| mn_scriptfail := false |> <| mn_storefail := false |> else m in
   let m2 := m1 <| mn_paid := mn_paid m1 || is_paid_input (os_input s) |>
                <| mn_scriptfail := mn_scriptfail m1 || negb (world_script_ok (os_world s)) |> in
   let had_record := negb (match mn_bcs m2 with [] => true | _ => false end) && chk_record m2 in
   let m3 := mon_rest (fold_left mon_effect (os_effects s) m2) in
-  (* (c) a CSV watch that fires while the refund is still to be made broadcasts the refund *)
+  (* (c) whenever the CSV watch fires while the swap is unfinished, unpaid and unspent, the refund is broadcast -
+     whatever the state table says about the event (store failures of this process excepted) *)
   let m4 :=
     match os_input s with
     | InCsvPassed =>
-        flag (negb (had_record && accepts_csv t (m_cur (os_pre s)) &&
+        flag (negb (had_record && negb (is_terminal (m_cur (os_pre s))) && negb (mn_paid m2) && negb (mn_storefail m2) &&
                     negb (str_nonempty (d_claim_txid (m_data (os_pre s)))) && first_persist_ok (os_effects s))
               || has_csv_spend (os_effects s))
              "csv-passed-without-refund-broadcast" m3
